@@ -82,6 +82,35 @@ def nor(a, b): return N(T.imp(nneg(M0), M1), a, b)
 def nequiv(a, b): return N(nand(T.imp(M0, M1), T.imp(M1, M0)), a, b)
 
 
+class WorkMeter:
+    """Deterministic work budget for one composition step: counts calls of Instantiate.simplify
+    (the toolkit's equality modulo notation is exponential in the nesting depth of notation, so
+    a few innocent-looking steps can cost minutes).  Counting calls, not seconds, keeps the
+    composition a pure function of the seed."""
+
+    def __init__(self, budget):
+        self.budget = budget
+        self.count = 0
+
+    def __enter__(self):
+        import proof_generation.pattern as P
+        self.P = P
+        self.orig = P.Instantiate.simplify
+        meter = self
+
+        def simplify(inst):
+            meter.count += 1
+            if meter.count > meter.budget:
+                raise Refused('work budget exceeded')
+            return meter.orig(inst)
+        P.Instantiate.simplify = simplify
+        return self
+
+    def __exit__(self, *a):
+        self.P.Instantiate.simplify = self.orig
+        return False
+
+
 class Builder:
     def __init__(self, lib_name, modules):
         from proof_generation.proof import ProofExp
@@ -217,7 +246,8 @@ def compose(seed, adversarial=False):
     def attempt(s):
         nonlocal refused
         try:
-            th = b.step(s)
+            with WorkMeter(4000):
+                th = b.step(s)
         except Refused:
             refused += 1
             return False
